@@ -51,6 +51,11 @@ func historyCase(prop string, s *Script, origin string) (hx.Case, *environment) 
 	for k := range env.tags {
 		tags["note:"+k] = true
 	}
+	env.txMu.Lock()
+	if env.txFailed {
+		tags["inject:transition-failed"] = true
+	}
+	env.txMu.Unlock()
 	if env.manual {
 		tags["watch:manual"] = true
 	} else {
